@@ -16,7 +16,7 @@ EXTENDS SlashRules, TLC
 CONSTANTS V,            \* values that may appear in files and records, e.g. 0..2
           MaxEntries,
           MergeMode,    \* "max" (shipped) | "allOrNothing" (pre-fix) | "overwrite"
-          DupKeys       \* "merge" (shipped) | "lastWins" (pre-fix)
+          DupKeys       \* "merge" (shipped) | "lastWins" (pre-fix) | "lastWinsIfExisting"
 
 NoAtt == [s |-> -1, t |-> -1]
 Entries == [att : {NoAtt} \cup [s : V, t : V], slot : {-1} \cup V]
@@ -42,15 +42,22 @@ EntryRec(e) == [s |-> e.att.s, t |-> e.att.t, ps |-> e.slot]
 MaxRec(a, b) == [s |-> Max(a.s, b.s), t |-> Max(a.t, b.t), ps |-> Max(a.ps, b.ps)]
 RECURSIVE Fold(_, _)
 Fold(acc, es) == IF es = <<>> THEN acc ELSE Fold(MaxRec(acc, EntryRec(Head(es))), Tail(es))
-FileRec == IF DupKeys = "merge" THEN Fold([s |-> -1, t |-> -1, ps |-> -1], file)
-           ELSE EntryRec(file[Len(file)])
-Merged ==
-    LET f == FileRec IN
-    IF MergeMode = "max" THEN MaxRec(db, f)
-    ELSE IF MergeMode = "overwrite" THEN f
-    ELSE IF db.s <= f.s /\ db.t <= f.t /\ db.ps <= f.ps THEN f ELSE db     \* all or nothing
+\* (parametrised by the design switches so that InterchangeDiff can compare designs on the same input)
+NoRec == [s |-> -1, t |-> -1, ps |-> -1]
+FileRecOf(dk, f, d) ==
+    IF dk = "merge" THEN Fold(NoRec, f)
+    ELSE IF dk = "lastWins" THEN EntryRec(f[Len(f)])
+    ELSE IF d = NoRec THEN Fold(NoRec, f) ELSE EntryRec(f[Len(f)])   \* "lastWinsIfExisting": earlier entries are consulted only when nothing is on record
+MergedOf(mm, dk, d, f) ==
+    LET r == FileRecOf(dk, f, d) IN
+    IF mm = "max" THEN MaxRec(d, r)
+    ELSE IF mm = "overwrite" THEN r
+    ELSE IF d.s <= r.s /\ d.t <= r.t /\ d.ps <= r.ps THEN r ELSE d     \* all or nothing
 \* rules.ImportSlashingProtection: the slot is written if present, the pair if its source is present
-Written(m) == [s |-> IF m.s # -1 THEN m.s ELSE db.s, t |-> IF m.s # -1 THEN m.t ELSE db.t, ps |-> IF m.ps # -1 THEN m.ps ELSE db.ps]
+WrittenOf(d, m) == [s |-> IF m.s # -1 THEN m.s ELSE d.s, t |-> IF m.s # -1 THEN m.t ELSE d.t, ps |-> IF m.ps # -1 THEN m.ps ELSE d.ps]
+FileRec == FileRecOf(DupKeys, file, db)
+Merged == MergedOf(MergeMode, DupKeys, db, file)
+Written(m) == WrittenOf(db, m)
 
 Import == /\ phase = "build" /\ file # <<>>
           /\ IF meta = "ok"
@@ -66,11 +73,13 @@ FileSlots == {file[i].slot : i \in 1 .. Len(file)} \ {-1}
 FileAtts == {file[i].att : i \in 1 .. Len(file)} \ {NoAtt}
 \* after a successful import every proposal / attestation at or below anything in the file or the earlier
 \* history is refused by the rules
-ImportCovers ==
-    phase = "imported" =>
-        /\ \A slot \in V : (\E x \in FileSlots \cup {before.ps} : slot <= x) => PropVerdict(db.ps, slot, "prop") = "DENIED"
-        /\ \A s, t \in V : ((\E a \in FileAtts \cup {[s |-> before.s, t |-> before.t]} : t <= a.t \/ s < a.s))
-                              => AttVerdict([s |-> db.s, t |-> db.t], s, t, "att") = "DENIED"
+CoversOf(after, bef, f) ==
+    LET slots == {f[i].slot : i \in 1 .. Len(f)} \ {-1}
+        atts == {f[i].att : i \in 1 .. Len(f)} \ {NoAtt}
+    IN /\ \A slot \in V : (\E x \in slots \cup {bef.ps} : slot <= x) => PropVerdict(after.ps, slot, "prop") = "DENIED"
+       /\ \A s, t \in V : ((\E a \in atts \cup {[s |-> bef.s, t |-> bef.t]} : t <= a.t \/ s < a.s))
+                             => AttVerdict([s |-> after.s, t |-> after.t], s, t, "att") = "DENIED"
+ImportCovers == phase = "imported" => CoversOf(db, before, file)
 NeverLowers == phase = "imported" => (db.s >= before.s /\ db.t >= before.t /\ db.ps >= before.ps)
 RejectedChangesNothing == phase = "rejected" => db = before
 
